@@ -403,6 +403,86 @@ def rule_r5(ck, prog, rule='C09.R5', cls='trace::propagation::HttpTraceContext')
                    'the decoded bytes are handed to %s unmodified' % tyname if ok else '%s: %s: the extracted value differs from what the header encodes' % (name, why))
 
 
+def rule_r5_tracestate(ck, prog, rule='C09.R5', cls='trace::propagation::HttpTraceContext'):
+    """the tracestate header is written whenever the state's header form is non-empty: the only way around the Set call is the
+    emptiness test of that string"""
+    f = prog.function(cls + '::InjectImpl')
+    g = Graph(prog, f, inline=None, sync_lambdas=False)
+    sets = [p for p in g.points if p.n is not None and p.n['k'] == 'call' and strip_targs(p.n.get('c', '')).endswith('TextMapCarrier::Set')]
+
+    def keyname(p):
+        return {f.nodes[j].get('name') for j in f.subtree(p.n['args'][0]) if f.nodes[j]['k'] == 'ref'}
+    ts = [p for p in sets if 'kTraceState' in keyname(p)]
+    tp = [p for p in sets if 'kTraceParent' in keyname(p)]
+    if not tp:
+        raise AnalysisBroken('InjectImpl: write of the traceparent header not found')
+    if not ts:
+        ck.violation(rule, f, 'tracestate-written-when-non-empty', tp[0].n, 'InjectImpl never writes the tracestate header')
+        return
+    hids = [f.nodes[j]['id'] for j in f.subtree(ts[0].n['args'][1]) if f.nodes[j]['k'] == 'ref' and f.nodes[j].get('sk') == 'local']
+    if len(hids) != 1:
+        raise AnalysisBroken('InjectImpl: the tracestate header value is not a single local')
+    hid = hids[0]
+
+    def empty_edge(a, b, lab):
+        if not lab or not isinstance(lab[0], int):
+            return False
+        core, pol = norm_cond(lab[1], lab[0])
+        cn = lab[1].nodes[core]
+        truth = lab[2] if pol else (not lab[2])
+        if cn['k'] == 'call' and strip_targs(cn.get('c', '')).rsplit('::', 1)[-1] == 'empty' and cn.get('obj') is not None and \
+                strip_casts(lab[1], cn['obj']).get('id') == hid:
+            return truth is True
+        c = comparison(lab[1], core)
+        if c:
+            op, l, r = c
+            ln, rn = strip_casts(lab[1], l), strip_casts(lab[1], r)
+            if ln['k'] == 'call' and strip_targs(ln.get('c', '')).rsplit('::', 1)[-1] in ('size', 'length') and ln.get('obj') is not None and \
+                    strip_casts(lab[1], ln['obj']).get('id') == hid and rn.get('v') == 0:
+                return (op == '==' and truth is True) or (op in ('!=', '>') and truth is False)
+        return False
+    r = g.reachable_from([q for (q, _l) in tp[0].succ], avoid=ts, avoid_edges=empty_edge)
+    ok = g.exit.id not in r
+    ck.verdict(ok, rule, f, 'tracestate-written-when-non-empty', ts[0].n, 'after traceparent, the tracestate Set is skipped only on the empty() edge of the header string' if ok else
+               'a non-empty tracestate can be left out of the injected headers (a condition other than emptiness guards the Set): the receiver extracts an empty trace state, the round trip loses it',
+               path=None if ok else g.describe_path(g.path(tp[0], g.exit, avoid=ts, avoid_edges=empty_edge) or []))
+
+
+def rule_r7(ck, prog, rule='C09.R7', prefixes=('opentelemetry::trace::', 'opentelemetry::common::', 'opentelemetry::context::', 'opentelemetry::baggage::')):
+    """re-entrancy: the parse / validate / inject functions keep no mutable function-local static: a static that is written after
+    its initialisation is shared by all threads (one thread's key validated against another thread's buffer)"""
+    cnt = 0
+    bad = 0
+    for f in sorted(prog.funcs.values(), key=lambda x: x.key):
+        if not any(f.qn.startswith(p) for p in prefixes) and not f.qn.startswith('canary::c09::'):
+            continue
+        statics = {}
+        for n in f.nodes:
+            if n['k'] == 'declstmt':
+                for d in n['decls']:
+                    if d.get('static') and not d.get('tls'):
+                        statics[d['id']] = (d, n)
+        if not statics:
+            continue
+        for vid, (d, dn) in sorted(statics.items()):
+            cnt += 1
+            writes = []
+            for n in f.nodes:
+                if n is dn:
+                    continue
+                for (v, strong, vx) in defs_in_node(f, n):
+                    if v == vid:
+                        writes.append(n)
+            const = d['t'].startswith('const ')
+            if writes and not const:
+                bad += 1
+                ck.violation(rule, f, 'static-local-not-mutated:%s' % d['name'], writes[0],
+                             'the function-local static %s (%s) is modified on every call: it is shared by all threads, so concurrent calls validate / parse one another\'s data' % (d['name'], d['t'][:40]))
+            else:
+                ck.holds(rule, f, 'static-local-not-mutated:%s' % d['name'], dn, 'static %s is only read after its initialisation' % d['name'])
+    return cnt
+
+
 def rule_r6(ck, prog, rule='C09.R6'):
     fs = [f for f in prog.functions('StringUtil::Trim') if len(f.params) == 3]
     if not fs:
@@ -453,8 +533,9 @@ def run(ck, prog):
     ck.doc('C09.R2', 'writer digit tables are lower-case hex in all three siblings; reader table exact over 256 entries', 4)
     ck.doc('C09.R3', 'every subscript into a constant-size array is bounded by constant, type or mask', 12)
     ck.doc('C09.R4', 'extraction guards equal the W3C constants and dominate the success return', 15)
-    ck.doc('C09.R5', 'inject/install only valid contexts; failure returns the caller\'s context; decoded bytes pass through', 6)
+    ck.doc('C09.R5', 'inject/install only valid contexts; failure returns the caller\'s context; decoded bytes pass through; tracestate written when non-empty', 7)
     ck.doc('C09.R6', 'Trim: the unsigned right index cannot wrap', 1)
+    ck.doc('C09.R7', 're-entrancy: no function-local static of the parse/validate/inject functions is modified after initialisation', 1)
     with ck.canary('C09.R3'):
         rule_r3(ck, prog, only='canary::c09::')
     rule_r1(ck, prog)
@@ -462,5 +543,9 @@ def run(ck, prog):
     rule_r3(ck, prog)
     rule_r4(ck, prog)
     rule_r5(ck, prog)
+    rule_r5_tracestate(ck, prog)
     rule_r6(ck, prog)
+    n7 = rule_r7(ck, prog)
+    if not n7:
+        ck.holds('C09.R7', prog.function('trace::propagation::HttpTraceContext::Extract'), 'no-static-locals', None, 'no function-local statics in the analysed API functions')
     return {}
